@@ -231,6 +231,48 @@ def tlc_design(ctx, module, cfg, timeout=600, expect_violation=None, workers=Non
     return r
 
 
+def apalache(ctx, module, cfg, init, inv, length, expect_error=False, timeout=600):
+    """Bounded symbolic check with Apalache (used for inductive invariants: --init=<any state satisfying the invariant>,
+    --length=1). Raises NoVerdict when the outcome is not the expected one (a design-level result, never a verdict about code)."""
+    d = ctx.sub("apalache-%s-%s-%d" % (cfg.replace(".cfg", ""), init, int(time.time() * 1000 % 1000000)))
+    for f in os.listdir(SPEC):
+        if f.endswith(".tla") or f.endswith(".cfg"):
+            shutil.copyfile(os.path.join(SPEC, f), os.path.join(d, f))
+    t = time.time()
+    rc, out = sh(["apalache-mc", "check", "--config=" + cfg, "--init=" + init, "--inv=" + inv, "--length=%d" % length,
+                  "--out-dir=" + os.path.join(d, "out"), module + ".tla"], timeout=timeout, cwd=d)
+    wall = time.time() - t
+    ok = "The outcome is: NoError" in out
+    err = "The outcome is: Error" in out
+    shutil.rmtree(os.path.join(d, "out"), ignore_errors=True)
+    if not ok and not err:
+        raise NoVerdict("apalache %s/%s: no outcome (rc=%s)\n%s" % (module, cfg, rc, out[-3000:]))
+    ctx.cov.setdefault("apalache_runs", []).append({"module": module, "cfg": cfg, "init": init, "inv": inv, "length": length,
+                                                    "outcome": "NoError" if ok else "Error", "wall_s": round(wall, 1)})
+    if ok == expect_error:
+        raise NoVerdict("apalache %s/%s init=%s inv=%s: expected %s, got %s - the design model is wrong (not a verdict about the code)\n%s" % (
+            module, cfg, init, inv, "a counterexample" if expect_error else "NoError", "NoError" if ok else "Error", out[-2500:]))
+    log("Apalache %s %s init=%s inv=%s length=%d: %s, %.1fs" % (module, cfg, init, inv, length, "NoError" if ok else "Error (expected)", wall))
+
+
+def tlaps(ctx, proof_module, timeout=900):
+    """Check a TLAPS proof (spec/proofs/<proof_module>.tla, which EXTENDS a module of spec/). Every obligation must be proved."""
+    d = ctx.sub("tlaps-%s-%d" % (proof_module, int(time.time() * 1000 % 1000000)))
+    for f in os.listdir(SPEC):
+        if f.endswith(".tla"):
+            shutil.copyfile(os.path.join(SPEC, f), os.path.join(d, f))
+    shutil.copyfile(os.path.join(SPEC, "proofs", proof_module + ".tla"), os.path.join(d, proof_module + ".tla"))
+    t = time.time()
+    rc, out = sh(["tlapm", "--threads", str(NCPU), "-I", "/opt/veriftools/tlapm/lib/tlapm/stdlib", proof_module + ".tla"], timeout=timeout, cwd=d)
+    wall = time.time() - t
+    m = re.search(r"All (\d+) obligations? proved", out)
+    shutil.rmtree(os.path.join(d, ".tlacache"), ignore_errors=True)
+    if rc != 0 or not m:
+        raise NoVerdict("tlapm %s: proof not complete (rc=%s) - a design-level result, not a verdict about the code\n%s" % (proof_module, rc, out[-3000:]))
+    ctx.cov.setdefault("tlaps_runs", []).append({"module": proof_module, "obligations_proved": int(m.group(1)), "wall_s": round(wall, 1)})
+    log("TLAPS %s: all %s obligations proved, %.1fs" % (proof_module, m.group(1), wall))
+
+
 def printed_json(r, tag):
     """Values printed from the spec as PrintT(<<"TAG", ToJson(x)>>) -> list of python values."""
     out = []
